@@ -23,12 +23,14 @@ Chk(what, cond) == IF cond THEN TRUE ELSE PrintT(<<"MISMATCH", what, "line", l>>
 Supported == {"2d6c7a342d", "2d6c7a352d", "2d6c7a732d", "2d6c68302d", "2d6c68312d", "2d6c68342d", "2d6c68352d",
               "2d6c68362d", "2d6c68372d", "2d6c68782d", "2d6c6b372d", "2d706d302d", "2d706d312d", "2d706d322d"}
 
-TInit == l = 1 /\ pass = "none" /\ idx = 0 /\ obs = <<>> /\ cur = [len |-> 0, crc |-> 0] /\ anyBad = FALSE /\ ended = FALSE
+Cur0 == [len |-> 0, crc |-> 0, stored |-> FALSE, packed |-> 0]
+Stored == {"2d6c68302d", "2d6c7a342d", "2d706d302d"}          \* -lh0- -lz4- -pm0-
+TInit == l = 1 /\ pass = "none" /\ idx = 0 /\ obs = <<>> /\ cur = Cur0 /\ anyBad = FALSE /\ ended = FALSE
 
 \* Reset{pass}: pass = "read" starts a new archive; "check" / "extract" / "cli-t" / "cli-x" start the
 \* corresponding pass over the same archive
 TReset == /\ IsEvent("Reset")
-          /\ pass' = Ev.pass /\ idx' = 0 /\ cur' = [len |-> 0, crc |-> 0] /\ anyBad' = FALSE /\ ended' = FALSE
+          /\ pass' = Ev.pass /\ idx' = 0 /\ cur' = Cur0 /\ anyBad' = FALSE /\ ended' = FALSE
           /\ obs' = IF Ev.pass = "read" THEN <<>> ELSE obs
 
 Verdict(i) == obs[i].sup /\ obs[i].len = obs[i].hlen /\ obs[i].crc = obs[i].hcrc
@@ -37,7 +39,7 @@ TNext == /\ IsEvent("Next")
          /\ IF Ev.id = "" THEN UNCHANGED <<idx, obs, cur>>
             ELSE IF Ev.fake THEN /\ cur' = [cur EXCEPT !.len = 1] /\ UNCHANGED <<idx, obs>>   \* re-presented entry: no verdict
             ELSE /\ idx' = idx + 1
-                 /\ cur' = [len |-> 0, crc |-> 0]
+                 /\ cur' = [Cur0 EXCEPT !.stored = Ev.method \in Stored, !.packed = Ev.packed]
                  /\ IF pass = "read"
                     THEN obs' = Append(obs, [id |-> Ev.id, hlen |-> Ev.length, hcrc |-> Ev.crc, isdir |-> Ev.isdir,
                                              sup |-> Ev.method \in Supported, len |-> 0, crc |-> 0])
@@ -56,23 +58,40 @@ Want(i) == IF obs[i].isdir THEN TRUE ELSE Verdict(i)
 TCheck == /\ IsEvent("Check") /\ pass = "check" /\ (idx > 0 \/ ended)
           /\ Chk("check verdict", Ev.res = (IF ended THEN FALSE ELSE Want(idx)))
           /\ UNCHANGED <<pass, idx, obs, cur, anyBad, ended>>
+FileVerdict(i) == obs[i].sup /\ Len(Ev.file) = obs[i].hlen /\ CrcFromT(CTab, 0, Ev.file) = obs[i].hcrc
 TExtract == /\ IsEvent("Extract") /\ pass = "extract" /\ (idx > 0 \/ ended)
             /\ Chk("extract verdict", IF ended THEN ~Ev.res ELSE IF cur.len = 1 THEN TRUE ELSE (obs[idx].isdir \/ Ev.res = Verdict(idx)))
+            /\ Chk("extract verdict = length and CRC of the file written",
+                   IF ended \/ cur.len = 1 THEN TRUE ELSE IF obs[idx].isdir THEN TRUE
+                   ELSE IF "file" \in DOMAIN Ev THEN Ev.res = FileVerdict(idx) ELSE TRUE)
             /\ UNCHANGED <<pass, idx, obs, cur, anyBad, ended>>
 
-\* pass "mixed": the caller first reads some bytes of the member and then asks for a verdict on it.
-\* Whatever the library does then, a good verdict still needs the bytes produced *by that operation*
-\* to have the recorded length and CRC - after n > 0 bytes were taken away they cannot, so the
-\* verdict must be bad (a member of declared length 0 aside: nothing can be taken from it).
+\* pass "mixed": the caller first reads some bytes of the member and then asks for a verdict on it.  The
+\* library then starts a NEW decoder on what is left of the member's stored stream, so the verdict is about
+\* the bytes that second decoder produces.  For an extraction those bytes are in the file it wrote (logged:
+\* Extract.file) and the verdict must be exactly "supported, recorded length, recorded CRC" of them.  For a
+\* check they are discarded; the verdict is then only determined when the stored stream is the data itself
+\* (-lh0- -lz4- -pm0-) and too little of it is left to reach the recorded length: it must be bad.  (A
+\* compressed stream entered in the middle can decode to anything - for instance to the spaces the history
+\* window starts with, which is also how some members begin.)
 TReadMixed == /\ IsEvent("Read") /\ pass = "mixed" /\ (idx > 0 \/ ended)
               /\ cur' = [cur EXCEPT !.crc = @ + Ev.n]          \* (cur.crc doubles as "bytes already taken" in this pass)
               /\ UNCHANGED <<pass, idx, obs, anyBad, ended>>
 TCheckMixed == /\ IsEvent("Check") /\ pass = "mixed" /\ (idx > 0 \/ ended)
-               /\ Chk("verdict after a partial read", Ev.res = (IF ended \/ cur.len = 1 THEN FALSE ELSE IF cur.crc = 0 THEN Want(idx) ELSE FALSE))
+               /\ Chk("verdict after a partial read",
+                      IF ended \/ cur.len = 1 THEN ~Ev.res
+                      ELSE IF cur.crc = 0 THEN Ev.res = Want(idx)
+                      ELSE IF obs[idx].isdir THEN Ev.res
+                      ELSE IF ~obs[idx].sup THEN ~Ev.res
+                      ELSE IF cur.stored /\ cur.packed < obs[idx].hlen + cur.crc THEN ~Ev.res
+                      ELSE TRUE)
                /\ UNCHANGED <<pass, idx, obs, cur, anyBad, ended>>
 TExtractMixed == /\ IsEvent("Extract") /\ pass = "mixed" /\ (idx > 0 \/ ended)
-                 /\ Chk("extract verdict after a partial read",
-                        IF ended THEN ~Ev.res ELSE IF cur.len = 1 \/ obs[idx].isdir THEN TRUE ELSE IF cur.crc = 0 THEN Ev.res = Verdict(idx) ELSE ~Ev.res)
+                 /\ Chk("extract verdict = length and CRC of the file written",
+                        IF ended THEN ~Ev.res ELSE IF cur.len = 1 \/ obs[idx].isdir THEN TRUE
+                        ELSE IF "file" \in DOMAIN Ev THEN Ev.res = FileVerdict(idx)
+                        ELSE IF "filebig" \in DOMAIN Ev THEN TRUE
+                        ELSE ~Ev.res)
                  /\ UNCHANGED <<pass, idx, obs, cur, anyBad, ended>>
 \* command line: Cli{i, good} = the tool's per-member line says Tested/Melted (good) or not;
 \* Exit{code}
